@@ -95,11 +95,11 @@ def mutants():
         ("C06:duplicate import is a warning", "validation.rs", 'kind: DiagnosticKind::Error,\n                        range: import.symbol_range.clone(),\n                        message: format!("Duplicated import', 'kind: DiagnosticKind::Warning,\n                        range: import.symbol_range.clone(),\n                        message: format!("Duplicated import', ["C06"]),
         ("C07:oneway direction check uses explicit flag before propagation", "validation.rs", "            if let ast::Item::Interface(ref mut interface) = ast.item {\n                // Set up oneway interface (adjust methods to be oneway)\n                set_up_oneway_interface(interface, &mut fr.diagnostics);\n            }\n\n            // Check methods (e.g.: return type of async methods)\n            check_methods(&ast, &mut fr.diagnostics);", "            // Check methods (e.g.: return type of async methods)\n            check_methods(&ast, &mut fr.diagnostics);\n\n            if let ast::Item::Interface(ref mut interface) = ast.item {\n                // Set up oneway interface (adjust methods to be oneway)\n                set_up_oneway_interface(interface, &mut fr.diagnostics);\n            }", ["C07", "C10"]),
         ("C07:missing direction reported at the end of the type", "validation.rs", "ast::Direction::Unspecified => ast::Range {\n                start: arg.arg_type.symbol_range.start.clone(),\n                end: arg.arg_type.symbol_range.start.clone(),", "ast::Direction::Unspecified => ast::Range {\n                start: arg.arg_type.symbol_range.end.clone(),\n                end: arg.arg_type.symbol_range.end.clone(),", ["C07"]),
-        ("C08:raw map warning dropped", "validation.rs", 'message: String::from("Declaring a non-generic map is not recommended"),', 'message: String::from("Declaring a non-generic map is not recommended"),\n                        ..return', ["C08"]),
+        ("C08:raw map warning dropped", "validation.rs", '                0 => {\n                    diagnostics.push(Diagnostic {\n                        kind: DiagnosticKind::Warning,\n                        message: String::from("Declaring a non-generic map', '                0 => return,\n                99 => {\n                    diagnostics.push(Diagnostic {\n                        kind: DiagnosticKind::Warning,\n                        message: String::from("Declaring a non-generic map', ["C08"]),
         ("C08:map key check accepts CharSequence", "validation.rs", 'if !matches!(type_.kind, ast::TypeKind::String if type_.name == "String") {', "if !matches!(type_.kind, ast::TypeKind::String | ast::TypeKind::CharSequence) {", ["C08"]),
         ("C09:mixed raised on every later method", "validation.rs", "let is_mixed_now_with_id = first_method_with_id.is_none()\n            && first_method_without_id.is_some()", "let is_mixed_now_with_id = first_method_without_id.is_some()", ["C09"]),
         ("C09:duplicate id points to itself", "validation.rs", "range: oe.get().transact_code_range.clone(),", "range: method.transact_code_range.clone(),", ["C09"]),
-        ("C09:name repeats still register their code", "validation.rs", '                    }]),\n            });\n            return;\n        }\n\n        method_names.insert', '                    }]),\n            });\n        }\n\n        method_names.insert', ["C09"]),
+        ("C09:name repeats still register their code", "validation.rs", '                }]),\n            });\n            return;\n        }\n\n        method_names.insert', '                }]),\n            });\n        }\n\n        method_names.insert', ["C09"]),
         ("C10:redundant oneway warning on the method name", "validation.rs", "range: method.oneway_range.clone(),", "range: method.symbol_range.clone(),", ["C10"]),
         ("C10:first method not propagated", "validation.rs", "        .for_each(|method| {\n            if method.oneway {", "        .skip(1)\n        .for_each(|method| {\n            if method.oneway {", ["C10"]),
         ("C10:return check on CharSequence too lenient", "validation.rs", "if method.oneway && method.return_type.kind != ast::TypeKind::Void {", "if method.oneway && method.return_type.kind != ast::TypeKind::Void && method.return_type.kind != ast::TypeKind::CharSequence {", ["C10"]),
@@ -130,7 +130,7 @@ def mutants():
         ("C20:two expected tokens print the first twice", "diagnostic.rs", '2 => format!("Expected {} or {}", v[0], v[1]),', '2 => format!("Expected {} or {}", v[0], v[0]),', ["C20"]),
         ("C20:single expected token not printed", "diagnostic.rs", '1 => format!("Expected {}", v[0]),', "1 => String::new(),", ["C20"]),
         ("C01:unwrap on parse error diagnostic", "parser.rs", "if let Some(diagnostic) = Diagnostic::from_parse_error(&lookup, e) {\n                    diagnostics.push(diagnostic)\n                }", "diagnostics.push(Diagnostic::from_parse_error(&lookup, e).filter(|d| d.range.start.offset > 0 || d.range.end.offset > 0).unwrap());", ["C01"]),
-        ("C01:validate drops files without a tree", "validation.rs", "                None => return (id, ParseFileResult { ast: None, ..fr }),\n            };", "                None => return (id, ParseFileResult { ast: None, ..fr }),\n            };\n            let _unused = 0;", ["C01"]),
+        ("C01:validate drops files without a tree and many diagnostics", "parser.rs", "validation::validate(keys, self.lalrpop_results.clone())", "validation::validate(keys, self.lalrpop_results.clone()).into_iter().filter(|(_, r)| r.ast.is_some() || r.diagnostics.len() < 4).collect()", ["C01", "C12"]),
     ]
     for name, file, old, new, checks in H:
         ms.append(dict(name=name, file=file, old=old, new=new, occ=0, checks=checks))
@@ -187,9 +187,12 @@ def main():
         r["seconds"] = round(time.time() - t0, 1)
         results.append(r)
         print(f"[{i}] {m['name']}: tests={r.get('existing_tests')} " + " ".join(f"{c}={'CAUGHT' if v['detected'] else 'missed'}" for c, v in r["checks"].items()), flush=True)
-        json.dump(results, open(f"{OUT}/sweep_results.json", "w"), indent=1)
+        if not only:
+            json.dump(results, open(f"{OUT}/sweep_results.json", "w"), indent=1)
     restore()
-    json.dump(results, open(f"{OUT}/sweep_results.json", "w"), indent=1)
+    json.dump(results, open(f"{OUT}/sweep_results{'_' + only.replace(' ', '_')[:20] if only else ''}.json", "w"), indent=1)
+    if only:
+        return
     # table
     with open(f"{OUT}/SWEEP.md", "w") as f:
         f.write("# Own mutation sweep (tools/mutsweep.py)\n\nMechanical and hand-written mutants applied to a scratch copy of /repo; `existing tests` = the repository's own suite on the mutant; then the listed quick checks.\n\n| mutant | existing tests | checks |\n|---|---|---|\n")
